@@ -4,7 +4,11 @@ Generated abbreviations come from an AST (repeat_util.El / Group with numbering 
 property ORACLE computes the forest of (name, attributes, text) the statement prescribes directly
 from that AST (copies, counters, maxRepeat clause) and compares it with a tag parse of
 emmet.expand's output.  The extracted Coq model runs on the same inputs and its full output
-string is compared with the implementation's."""
+string is compared with the implementation's.
+
+Besides counters the AST carries what stands next to them in real abbreviations and shares state with
+the copy loop: attributes written in every documented way (repeat_util.ATTR_KINDS) and the `$#`
+placeholder with the texts it stands for (none, a string, lines with `*` line repeaters)."""
 import copy
 import glob
 import json
@@ -69,8 +73,8 @@ class Gen:
         self.snippets = markup_snippets
         self.names = abbr_gen.safe_names()
 
-    def add(self, nodes, limit, cfg, label):
-        exp, total = u.expected(nodes, limit, self.inline)
+    def add(self, nodes, limit, cfg, label, text=None):
+        exp, total = u.expected(nodes, limit, self.inline, text)
         if u.count_nodes(exp) > 600:
             return False
         for nm in u.names_of(exp):
@@ -79,6 +83,8 @@ class Gen:
         cfg = copy.deepcopy(cfg)
         if limit is not None:
             cfg['maxRepeat'] = limit
+        if text is not None:
+            cfg['text'] = copy.deepcopy(text)
         abbr = u.render(nodes)
         self.cases.append(Case(abbr, cfg, exp, label))
         ctx = self.ctx
@@ -87,14 +93,35 @@ class Gen:
         if limit is None:
             ctx.cover('limit:none')
         else:
-            full, _ = u.expected(nodes, None, self.inline)
+            full, _ = u.expected(nodes, None, self.inline, text)
             ctx.cover('limit:truncates' if u.count_nodes(full) != u.count_nodes(exp) else 'limit:not-reached')
-            reps = [n for n in all_units(nodes) if n.repeat is not None and n.repeat > 1]
+            reps = [n for n in all_units(nodes) if isinstance(n.repeat, int) and n.repeat > 1]
             if reps and limit < min(n.repeat for n in reps):
                 ctx.cover('limit:below-every-repeater')
         if u.count_nodes(exp) >= 2:
             ctx.nontrivial(abbr + '|' + canon_cfg(cfg))
+        ctx.cover('text:' + ('none' if text is None else 'lines' if isinstance(text, list) else 'string'))
+        for n in all_units(nodes):
+            if isinstance(n, u.El):
+                for _, _, kind in n.attrs:
+                    ctx.cover('attr-kind:' + (kind or 'unquoted'))
+                if u.el_has_ph(n):
+                    ctx.cover('placeholder:' + ('nested-repeaters' if self._rep_depth(nodes, n) >= 2 else 'one-or-no-repeater'))
         return True
+
+    @staticmethod
+    def _rep_depth(nodes, target):
+        """How many repeated units (the element itself included) enclose `target`."""
+        def walk(ns, d):
+            for n in ns:
+                dd = d + (1 if n.repeat is not None else 0)
+                if n is target:
+                    return dd
+                r = walk(n.items if isinstance(n, u.Group) else n.kids, dd)
+                if r is not None:
+                    return r
+            return None
+        return walk(nodes, 0) or 0
 
     # every numbering form, in every position, N = 1 .. 30
     def forms(self):
@@ -103,7 +130,7 @@ class Gen:
         ns = list(range(1, 31)) if thorough else [1, 2, 3, 9, 10, 11, 30]
         k = 0
         for form in u.all_forms(sizes=sizes):
-            for pos in ('name', 'id', 'class', 'attr', 'attrq', 'attrname', 'text', 'child'):
+            for pos in ('name', 'id', 'class', 'attr', 'attrq', 'attrx', 'attrname', 'text', 'child'):
                 for n in (ns if thorough else ns[(k % 3)::3] + [ns[k % len(ns)]]):
                     k += 1
                     f = u.Num(form.size, form.reverse, form.base, form.at)
@@ -118,6 +145,8 @@ class Gen:
                         e.attrs = [(['t'], ['v', f], '')]
                     elif pos == 'attrq':
                         e.attrs = [(['t'], ['v ', f, 'w'], '"')]
+                    elif pos == 'attrx':
+                        e.attrs = [(['t'], ['go(', f, ')'], '{')]
                     elif pos == 'attrname':
                         e.attrs = [(['t', f], ['v'], "'")]
                     elif pos == 'text':
@@ -149,6 +178,103 @@ class Gen:
                                     k += 1
                                     self.add(top, limit, CONFIGS[k % 2], 'skeleton')
 
+    # every way of writing an attribute x where the repeated unit stands x N x a limit: all copies alike
+    def attr_kinds(self):
+        num = lambda: u.Num(1)
+        k = 0
+        for kind in u.ATTR_KINDS:
+            base = kind.lstrip('!')
+            values = [[]] if base in ('bare', 'bool') else \
+                [['v', num()], [u.Num(2, True, 3)]] + ([[]] if base else []) + \
+                ([['a b', num(), ' c']] if base else []) + ([['"', num(), '"'], ["f('k', ", num(), ')']] if base == '{' else [])
+            for val in values:
+                for named in (False, True):
+                    for shape in ('el', 'group', 'nested', 'nested-group', 'child'):
+                        for n in ((2,), (3,), (1, 3), (2, 5))[k % 4]:
+                            k += 1
+                            x = u.El(name=['x-y'], classes=[['c', num()]],
+                                     attrs=[(['t', num()] if named else ['t'], copy.deepcopy(val), kind), (['n'], [num()], '')])
+                            if shape == 'el':
+                                x.repeat = n
+                                top = [x]
+                            elif shape == 'group':
+                                top = [u.Group([x, u.El(name=['q'], classes=[['d', num()]])], n)]
+                            elif shape == 'nested':
+                                x.repeat = n
+                                top = [u.El(name=['p'], classes=[['o', num()]], repeat=2, kids=[x])]
+                            elif shape == 'nested-group':
+                                x.repeat = n
+                                top = [u.Group([u.El(name=['p'], kids=[x]), u.El(name=['q'], classes=[['d', num()]])], 2)]
+                            else:           # the attribute on an unrepeated descendant of the repeated element
+                                top = [u.El(name=['p'], repeat=n, kids=[u.El(name=['q'], kids=[x])])]
+                            total = u.total_repeat_copies(top)
+                            limit = None if k % 3 else 1 + k % (total + 1)
+                            self.add(top, limit, CONFIGS[k % len(CONFIGS)], 'attr-kinds')
+
+    # `$#` next to counters: nesting skeletons x where the placeholder stands x what text is given x limits
+    def placeholders(self):
+        num = lambda: u.Num(1)
+        k = 0
+
+        def unit(as_group, el, rep):
+            if as_group:
+                return u.Group([el], rep)
+            el.repeat = rep
+            return el
+        for outer_group in (False, True):
+            for inner_group in (False, True):
+                for n1 in (2,):
+                    for n2 in (1, 2, 3):
+                        n1 = 2 + (k // 7) % 2
+                        for where in ('inner-attr-first', 'inner-attr-last', 'inner-text', 'inner-class', 'inner-child', 'inner-sibling-before',
+                                      'outer-attr', 'outer-text', 'both', 'deep'):
+                            for mode in ('none', 'string', 'lines-inner', 'lines-outer', 'lines-both', 'lines-blank'):
+                                ph = lambda: [u.PH]
+                                inner = u.El(name=['b'], classes=[['c', u.Num(2)]], attrs=[(['n'], [num()], ''), (['r'], [u.Num(1, True)], '"')])
+                                kid = u.El(name=['i'], classes=[['k', num()]])
+                                inner.kids = [kid]
+                                outer = u.El(name=['x-y'], classes=[['o', num()]], attrs=[(['m'], ['v', num()], '')])
+                                before = []
+                                if where in ('inner-attr-first', 'both', 'deep'):
+                                    inner.attrs.insert(0, (['title'], ['a ', u.PH, ' z', num()], '"'))
+                                if where == 'inner-attr-last':
+                                    inner.attrs.append((['w'], [u.PH, num()], '{'))
+                                if where == 'inner-text':
+                                    inner.text = [u.PH, 't', num()]
+                                if where == 'inner-class':
+                                    inner.classes.insert(0, ['p', u.PH, 'q'])
+                                if where in ('inner-child', 'deep'):
+                                    kid.attrs = [(['h'], ph(), ''), (['n'], [num()], '')]
+                                if where == 'inner-sibling-before':
+                                    before = [u.El(name=['u'], text=ph())]
+                                if where in ('outer-attr', 'both'):
+                                    outer.attrs.insert(0, (['title'], ph(), ''))
+                                if where == 'outer-text':
+                                    outer.text = ['T', u.PH, num()]
+                                if where == 'deep':
+                                    kid.kids = [u.El(name=['em'], classes=[['e', num()]], repeat=2, text=[u.PH, num()])]
+                                # a list of lines: every `$#` needs an enclosing line repeater `*`, and a unit is
+                                # only made a line repeater when a `$#` stands inside it (otherwise the text would
+                                # be appended to its deepest element, which is another property's business)
+                                need_outer = where in ('outer-attr', 'outer-text', 'both', 'inner-sibling-before')
+                                inner_has = where not in ('outer-attr', 'outer-text', 'inner-sibling-before')
+                                text = None
+                                r1, r2 = n1, n2
+                                if mode == 'string':
+                                    text = 'W'
+                                elif mode.startswith('lines'):
+                                    text = ['one', 'two', 'three'][:max(n2, 2)] if mode != 'lines-blank' else ['  one', '', 'two  ', ' ', '\tthree']
+                                    if need_outer or mode in ('lines-outer', 'lines-both'):
+                                        r1 = u.IMPLICIT
+                                    if inner_has and mode in ('lines-inner', 'lines-both', 'lines-blank'):
+                                        r2 = u.IMPLICIT
+                                outer.kids = before + [unit(inner_group, inner, r2)]
+                                top = [unit(outer_group, outer, r1), u.El(name=['em'], classes=[['z', num()]])]
+                                total = u.total_repeat_copies(top, text)
+                                for limit in (None, 1 + k % (total + 1)) if k % 2 else (None,):
+                                    self.add(top, limit, CONFIGS[k % len(CONFIGS)], 'placeholders', text)
+                                k += 1
+
     def random(self, count):
         rng = self.rng
         made = 0
@@ -156,9 +282,21 @@ class Gen:
         while made < count and tries < count * 3:
             tries += 1
             big = rng.random() < 0.15
+            p_ph = rng.choice([0.0, 0.0, 0.0, 0.2, 0.4])
             nodes = u.rand_forest(rng, self.names, rng.randint(1, 14 if big else 7), max_depth=5,
-                                  rep_max=30 if rng.random() < 0.2 else 6, p_num=rng.choice([0.3, 0.5, 0.8]))
-            total = u.total_repeat_copies(nodes)
+                                  rep_max=30 if rng.random() < 0.2 else 6, p_num=rng.choice([0.3, 0.5, 0.8]),
+                                  p_ph=p_ph, rich=rng.random() < 0.5)
+            text = None
+            if p_ph and u.forest_has_ph(nodes):
+                r = rng.random()
+                if r < 0.3:
+                    text = rng.choice(['W', 'two words', 'x1'])
+                elif r < 0.6:
+                    text = [u.rand_word(rng, 1, 4) for _ in range(rng.randint(1, 4))]
+                    if rng.random() < 0.2:
+                        text.insert(rng.randint(0, len(text)), rng.choice(['', '  ']))
+                    u.make_line_repeaters(rng, nodes)
+            total = u.total_repeat_copies(nodes, text)
             if total > (500 if rng.random() < 0.05 else 150):
                 continue
             r = rng.random()
@@ -168,7 +306,7 @@ class Gen:
                 limit = rng.randint(1, total + 2)
             else:
                 limit = rng.choice([1, 2, total, total + 1, total + 2])
-            if self.add(nodes, limit, rng.choice(CONFIGS), 'random'):
+            if self.add(nodes, limit, rng.choice(CONFIGS), 'random', text):
                 made += 1
 
     def corpus(self):
@@ -362,7 +500,8 @@ def run_spec(ctx, cases):
     if model is None:
         return
     step = 1 if ctx.tier == 'quick' else 3
-    sel = [c for c in cases[::step] if c.exp is None or u.count_nodes(c.exp) <= MODEL_MAX_NODES]
+    # abbreviation-level convert without a text: cases with a wrapped text go through the markup model only
+    sel = [c for c in cases[::step] if (c.exp is None or u.count_nodes(c.exp) <= MODEL_MAX_NODES) and c.cfg.get('text') is None]
     wires = []
     for c in sel:
         m = c.cfg.get('maxRepeat')
@@ -513,11 +652,29 @@ def run(ctx):
         'is reached, then every repeater stops after the copy it is in) = tag parse of the output. Under a limit '
         'a reversed counter still counts down from start+N-1 (N as written). Outside the claim, compared with the '
         'model only: *0, implicit *, the @^ modifier. Numbering tokens: every form alone and embedded, token '
-        'fields compared with the written (size, reverse, base).')
+        'fields compared with the written (size, reverse, base). '
+        'Attribute value kinds: every way of writing an attribute (unquoted, "..", \'..\', {expression}, explicitly '
+        'empty "" \'\' {}, no value, boolean `name.`, implied `!name` with each of these) in forms (position attrx), in '
+        'a stream of its own (kind x value x numbered name x repeated element / group / nested in a repeater / '
+        'nested in a repeated group / unrepeated descendant x N in 1,2,3,5 x limit) and in half of the random forests: '
+        'every copy must show the attribute as copy 1 does (an expression stays `name={..}`, observed with its braces; '
+        'output forms hard-coded in repeat_util.ATTR_KINDS from the Emmet syntax documentation). '
+        'Repeater placeholder `$#` next to counters: stream placeholders = two nested repeaters (elements and groups, '
+        'N1 in 2,3, N2 in 1,2,3) x where the `$#` stands (inner attribute before / after the numbered ones, inner text, '
+        'class, inner child, sibling before the inner repeater, outer attribute / text, several, three levels) x text '
+        '(none: `$#` yields nothing; one string; a list of lines with the inner, outer or both repeaters written `*` = '
+        'one copy per non-blank line, blank and indented lines included) x limit; 40% of the random forests carry `$#` in '
+        'classes, attribute values and text, with a string or with lines and randomly chosen enclosing units turned '
+        'into line repeaters. A line repeater is a repeated unit with N = number of non-blank lines (its counter and '
+        'the maxRepeat clause as for *N); only generated with a `$#` inside, and with lines every `$#` has one around '
+        'it (where the text goes without `$#` is not part of C02). The convert-level model/spec comparison (RepeatRun) '
+        'takes no text: cases with a text are compared through the markup model only.')
     g = Gen(ctx)
     g.corpus()
     g.forms()
     g.skeletons()
+    g.attr_kinds()
+    g.placeholders()
     g.random(3000 if ctx.tier == "quick" else 60000)
     for k, abbr in enumerate(TIE_ONLY):
         for cfg in ({'options': {'output.format': False}}, {'options': {'output.format': False}, 'maxRepeat': 2 + k % 3}):
